@@ -270,6 +270,11 @@ class Unit:
                 if self.forbid_auto and re.search(r'\bauto\b', _strip_comments(ex.text)):
                     raise Undecided("an 'auto' token survives the rules in %s:%s (CBMC would type it int)"
                                     % (p.relpath, p.sig))
+                body = _strip_comments(ex.text)
+                body = body[body.find('{') + 1:] if '{' in body else ""
+                if re.search(r'\bstatic\b(?!_cast|_assert)', body) and not p.body_only and p.region_end is None:
+                    raise Undecided("a function-local 'static' appears in %s:%s — CBMC 6.11 re-runs the constructor of a local static on every call, "
+                                    "so state kept between calls would be mis-modelled" % (p.relpath, p.sig))
                 outs.append("/* ---- %s:%d  %s ---- */\n%s" % (ex.relpath, ex.line, p.name or p.sig, ex.text))
                 raws.append(ex.raw)
                 self.functions.append({"file": ex.relpath, "line": ex.line, "selector": p.sig,
